@@ -28,6 +28,9 @@ def layout_lines(lay):
         out.append('file %s dir' % hx(d))
         if k == 'file':
             out.append('file %s file %s' % (hx(d + b'/f.conf'), hx(b'm = %d\n' % (i + 1))))
+        elif k == 'link':    # a symbolic link to a regular file outside the search path: found like the file itself
+            out.append('file %s file %s' % (hx(b'real/t%d.conf' % i), hx(b'm = %d\n' % (i + 1))))
+            out.append('file %s link %s' % (hx(d + b'/f.conf'), hx(b'real/t%d.conf' % i)))
         elif k == 'dir':
             out.append('file %s dir' % hx(d + b'/f.conf'))
     return out
@@ -40,7 +43,7 @@ def expected(lay, order, name, homes):
         q = p[3:] if p.startswith(b'@R/') else p
         q = re.sub(rb'/+', b'/', q)
         m = re.fullmatch(rb'(d[123])/f\.conf', q)
-        return bool(m) and lay[m.group(1)] == 'file'
+        return bool(m) and lay[m.group(1)] in ('file', 'link')
     if not order:
         return None
     if name.startswith(b'@R/') or name.startswith(b'/'):
@@ -69,10 +72,11 @@ def generate(rng, tier):
     n = 0
     homes = {b'me': b'@R/d1', b'bob': b'@R/d2'}
     pw = ['passwd %s %s' % (hx(u), hx(h)) for u, h in sorted(homes.items())] + ['passwd_self ' + hx(b'me')]
-    kinds = ['file', 'dir', 'missing']
+    kinds = ['file', 'dir', 'missing', 'link']
     layouts = list(itertools.product(kinds, repeat=3)) if tier == 'thorough' else \
         [('file', 'file', 'missing'), ('dir', 'file', 'file'), ('missing', 'dir', 'file'), ('file', 'dir', 'dir'),
-         ('dir', 'dir', 'dir'), ('missing', 'missing', 'missing'), ('file', 'file', 'file'), ('dir', 'missing', 'file')]
+         ('dir', 'dir', 'dir'), ('missing', 'missing', 'missing'), ('file', 'file', 'file'), ('dir', 'missing', 'file'),
+         ('link', 'file', 'missing'), ('dir', 'link', 'file'), ('missing', 'dir', 'link'), ('link', 'link', 'link')]
     pool = [b'd1', b'd2', b'd3', b'@R/d1', b'@R/d3', b'nodir', b'~', b'~bob', b'd2/', b'~nouser']
     orders = []
     for k in (0, 1, 2, 3):
@@ -120,7 +124,7 @@ def generate(rng, tier):
                     e = expected(lay, order, nm, homes)
                 else:
                     e = tilde(nm, homes)
-                    e = e if re.fullmatch(rb'@R/(d[123])/f\.conf', e) and lay[e[3:5]] == 'file' else None
+                    e = e if re.fullmatch(rb'@R/(d[123])/f\.conf', e) and lay[e[3:5]] in ('file', 'link') else None
                 mark = int(re.search(rb'd([123])/', e).group(1)) if e is not None else None
                 for cmd in ('parse_file 0 ' + hx(nm), 'parse_buf 0 ' + hx(b'include("' + nm + b'")\n')):
                     lines.append('setint 0 6d 0 0')
